@@ -507,21 +507,31 @@ Definition view_eqb (a b : obs) : bool :=
   rclass_eqb (o_res a) COk && rclass_eqb (o_res b) COk
   && same_chain false a b && same_info_modulo_dirty a b.
 
+(** revision.counter as a restarted process finds it: the value before the operation or the value
+    after it (a WriteAt is a data write followed by the write of the counter: death or a failure
+    between the two leaves the old value) *)
+Definition counter_of (o : obs) : option Z :=
+  match lookup_file (o_dir o) Counter with Some (KCounter v) => Some v | _ => None end.
+Definition oz_eqb (a b : option Z) : bool :=
+  match a, b with Some x, Some y => Z.eqb x y | None, None => true | _, _ => false end.
+Definition counter_ok (pre post cur : obs) : bool :=
+  oz_eqb (counter_of cur) (counter_of pre) || oz_eqb (counter_of cur) (counter_of post).
+
 Definition c08_kill_ok (pre post cur : obs) : bool :=
-  wf_obs cur && is_open cur && (view_eqb pre cur || view_eqb post cur).
+  wf_obs cur && is_open cur && (view_eqb pre cur || view_eqb post cur) && counter_ok pre post cur.
 
 (** [r]: what the operation returned when one of its calls failed *)
 Definition c08_fail_ok (pre post : obs) (r : rclass) (cur : obs) : bool :=
   match r with
-  | COk => wf_obs cur && is_open cur && view_eqb post cur
-  | _ => wf_obs cur && is_open cur && (view_eqb pre cur || view_eqb post cur)
+  | COk => wf_obs cur && is_open cur && view_eqb post cur && oz_eqb (counter_of cur) (counter_of post)
+  | _ => wf_obs cur && is_open cur && (view_eqb pre cur || view_eqb post cur) && counter_ok pre post cur
   end.
 (** the strict reading: an error is reported only over the old state *)
 Definition c08_fail_strict (pre post : obs) (r : rclass) (cur : obs) : bool :=
   match r with
-  | COk => wf_obs cur && is_open cur && view_eqb post cur
-  | CErr => wf_obs cur && is_open cur && view_eqb pre cur
-  | CDied => wf_obs cur && is_open cur && (view_eqb pre cur || view_eqb post cur)
+  | COk => wf_obs cur && is_open cur && view_eqb post cur && oz_eqb (counter_of cur) (counter_of post)
+  | CErr => wf_obs cur && is_open cur && view_eqb pre cur && counter_ok pre post cur
+  | CDied => wf_obs cur && is_open cur && (view_eqb pre cur || view_eqb post cur) && counter_ok pre post cur
   end.
 
 (** one observed faulty run of the implementation: kind (None = kill before model call [i];
